@@ -82,6 +82,8 @@ def gen_case(pyrng, present, nmax=12, force=None):
                 k = int(g.integers(1, min(n, 3) + 1)) if b == 0 or "arnoldi_batch_shared_stop" not in present else grades[0]
                 idx = g.choice(n, size=k, replace=False)
                 v = np.zeros(n, dtype=complex); v[idx] = g.uniform(0.5, 2.0, k) * g.choice([-1, 1], k)
+                if k == 1:
+                    v[idx] = float(g.choice([1.0, -2.0, 0.5]))      # exactly representable unit vector after normalisation
                 grades.append(k)
             else:
                 v = inv_basis @ rnd(g, (rr,), cplx)
@@ -236,6 +238,21 @@ def krylov_basis(S, v, jmax):
     return U, grade
 
 
+def mgs_loss_ref(S, v, steps):
+    """loss of orthogonality of a plain single-pass modified Gram-Schmidt Arnoldi run (independent numpy code):
+    what any faithful binary64 implementation of the algorithm the property names can be expected to lose"""
+    n = len(v)
+    Q = np.zeros((n, steps + 1), dtype=complex)
+    Q[:, 0] = v / np.linalg.norm(v)
+    for j in range(steps):
+        w = S @ Q[:, j]
+        for i in range(j + 1):
+            w = w - np.vdot(Q[:, i], w) * Q[:, i]
+        Q[:, j + 1] = w / np.linalg.norm(w)
+    G = Q.conj().T @ Q
+    return float(np.abs(G - np.eye(steps + 1)).max())
+
+
 def oracle(c, obs, present=frozenset()):
     """failed clauses of C15 on the implementation's output.  Clauses spoiled by a defect flag the tree exhibits
     (`present`) are not evaluated in the region that flag covers."""
@@ -280,8 +297,12 @@ def oracle(c, obs, present=frozenset()):
             bad.append(tag + f"{a} Arnoldi steps, more than min(max_iters, n) = {cap}")
         # orthonormality of the columns whose sub-diagonal entry exceeds the tolerance
         Qa = Q[:, :a + 1]
-        if np.abs(Qa.conj().T @ Qa - np.eye(a + 1)).max() > 1e-7:
-            bad.append(tag + f"columns 0..{a} not orthonormal")
+        loss = np.abs(Qa.conj().T @ Qa - np.eye(a + 1)).max()
+        if loss > 1e-8 and loss > 100 * mgs_loss_ref(S, v.astype(complex), a):
+            bad.append(tag + f"columns 0..{a} not orthonormal (loss {loss:.3g}, beyond what single-pass modified Gram-Schmidt loses on this input)")
+        alive_steps = a if b == 0 else min(alive_steps, a)
+        worst_loss = loss if b == 0 else max(worst_loss, loss)
+        was_clipped = bool(clipped) if b == 0 else (was_clipped or bool(clipped))
         # Arnoldi relation on the active columns
         if a > 0 and np.abs(S @ Q[:, :a] - Q @ H[:, :a]).max() > 1e-8 * scale:
             bad.append(tag + "A Q[:, :a] != Q H[:, :a] on the active columns")
@@ -315,7 +336,7 @@ def oracle(c, obs, present=frozenset()):
         w = dec(obs["eigs"]); Y = dec(obs["eigvecs"]).T
         if m > n and "arnoldi_padding" in present:
             pass        # spurious zero eigenvalues from the zero padding: recorded flag
-        elif m >= n and min(c["grades"]) >= n:
+        elif m >= n and min(c["grades"]) >= n and alive_steps >= n - 1 and not was_clipped and worst_loss < 1e-10:
             lam = np.linalg.eigvals(S)
             cond = np.linalg.cond(np.linalg.eig(S)[1])
             if cond < 1e4:
